@@ -263,6 +263,15 @@ Definition exec (op : N) (args : list ans) (st : dstate) : dstate * ans :=
       let '(cs2, m2) := finish_all (length cs1) cs1 m1 in
       let a2 := fold_left (fun a x => seq_spec x a) (g_list A0) a in
       (mkD m2 a2, both (a_list a_coro cs2) ANone)
+  | 81 =>
+      (* abandoned requests: the coroutines are started and advanced as the schedule says, and then dropped.  A request
+         that never ran a step leaves nothing behind; the specification side applies only the writing requests that ran to
+         their end (a writer dropped half-way leaves the specification state where it was: the harness stops consulting it) *)
+      let cs := map g_coro (g_list A0) in
+      let sched := map (fun x => N.to_nat (g_num x)) (g_list A1) in
+      let '(cs1, m1) := exec_sched sched cs m in
+      let a2 := fold_left (fun a xc => if co_done (snd xc) then seq_spec (fst xc) a else a) (combine (g_list A0) cs1) a in
+      (mkD m1 a2, both (a_list (fun c => if co_done c then a_coro c else AList [a_bool false; ANone]) cs1) ANone)
   | _ => (st, ACrash)
   end.
 
